@@ -793,9 +793,11 @@ def encode_list(lst):
 
 def encode_dict(dct):
     dct_enc = collections.OrderedDict()
-    for key,value in sorted(dct.items()):
+    # Check keys before sorting because keys of different types are not sortable
+    for key in dct:
         if not isinstance(key, str):
             raise ValueError(f'Invalid key: {key!r}')
+    for key,value in sorted(dct.items()):
         key_enc = str(key).encode('utf8')
         value_enc = encode_value(value)
         dct_enc[key_enc] = value_enc
